@@ -136,7 +136,12 @@ func (rn *runner) runShard(cases []Case, race bool) shardOutcome {
 			to = t
 		}
 		if race {
-			to *= 2
+			// A -race child cannot use the runtime's deadlock detector (cgo);
+			// a stall there is cut short and reported as inconclusive.
+			to = 300
+			if rn.tier == "thorough" {
+				to = 1500
+			}
 		}
 		timedOut := false
 		if err := cmd.Start(); err != nil {
